@@ -1033,3 +1033,50 @@ where
 {
     FlatEx::<Val<I, F>, ValOpsFactory<I, F>, ValMatcher>::parse(text)
 }
+
+/// Wrappers of the private operator kernels for out-of-tree verification harnesses, see feature
+/// `verif_hooks` (off by default, not part of the API).
+#[cfg(feature = "verif_hooks")]
+#[doc(hidden)]
+pub mod verif_hooks {
+    use super::*;
+    macro_rules! bin_hooks {
+        ($($name:ident),+) => {
+            $(
+                pub fn $name<I, F>(a: Val<I, F>, b: Val<I, F>) -> Val<I, F>
+                where
+                    I: DataType + PrimInt + Signed,
+                    F: DataType + Float,
+                    <I as FromStr>::Err: Debug,
+                    <F as FromStr>::Err: Debug,
+                {
+                    super::$name(a, b)
+                }
+            )+
+        };
+    }
+    macro_rules! unary_hooks {
+        ($($name:ident),+) => {
+            $(
+                pub fn $name<I, F>(a: Val<I, F>) -> Val<I, F>
+                where
+                    I: DataType + PrimInt + Signed,
+                    F: DataType + Float,
+                    <I as FromStr>::Err: Debug,
+                    <F as FromStr>::Err: Debug,
+                {
+                    super::$name(a)
+                }
+            )+
+        };
+    }
+    bin_hooks!(
+        pow, add, sub, mul, div, min, max, rem, bitwise_or, bitwise_and, bitwise_xor, right_shift,
+        left_shift, and, or, atan2, dot, cross, component
+    );
+    unary_hooks!(
+        minus, signum, abs, sin, cos, tan, asin, acos, atan, sinh, cosh, tanh, asinh, acosh, atanh,
+        floor, ceil, trunc, fract, exp, sqrt, cbrt, round, ln, log10, log2, swap_bytes, to_le,
+        to_be, fact, cast_to_int, cast_to_float, length
+    );
+}
